@@ -6,7 +6,7 @@ built).
 Bool nodes  : ["bv",i] ["bl",b] ["not",B] ["and",B,B] ["or",B,B] ["xor",B,B] ["iff",B,B] ["bne",B,B]
               ["then",B,B] ["cthen",B,B] ["cmp",op,I,I] ["alldiff",[I..]] ["alldiff_arr",[I..]]
               ["fold_and",NEST] ["fold_or",NEST] ["afold_and",[B..]] ["afold_or",[B..]]
-              ["nand",[B..]] ["nor",[B..]]
+              ["nand",[B..]] ["nor",[B..]] ["bc",b] (BOOL_CONSTANT node built directly)
 Int nodes   : ["iv",i] ["il",n] ["neg",I] ["add",I,I] ["sub",I,I] ["cond",B,I,I] ["ccond",B,I,I]
               ["count",NEST] ["acount",[B..]] ["nadd",[I..]] ["nsub",[I..]] ["sum",[I..]]
 NEST        : B | ["L", NEST...] (python list) | ["T", NEST...] (tuple) | ["G", NEST...] (generator)
@@ -43,7 +43,7 @@ def ev(n, vals):
     t = n[0]
     if t == "bv" or t == "iv":
         return vals[n[1]]
-    if t == "bl" or t == "il":
+    if t in ("bl", "il", "bc", "ic"):
         return n[1]
     if t == "not":
         return not ev(n[1], vals)
@@ -111,6 +111,10 @@ def build(n, vars_):
         return vars_[n[1]]
     if t == "bl" or t == "il":
         return n[1]
+    if t == "bc":
+        return BoolExpr(Op.BOOL_CONSTANT, [n[1]])
+    if t == "ic":
+        return IntExpr(Op.INT_CONSTANT, [n[1]])
     if t == "not":
         return ~build(n[1], vars_)
     if t == "and":
@@ -257,6 +261,8 @@ class Gen:
     def bool_(self, d):
         r = self.rng
         if d <= 0 or r.random() < 0.18:
+            if r.random() < 0.04:
+                return ["bc", r.random() < 0.5]
             if r.random() < self.lit_rate or not self.bvars:
                 if self.bvars or self.ivars:
                     if not self.bvars and r.random() < 0.8:
@@ -312,6 +318,8 @@ class Gen:
     def int_(self, d):
         r = self.rng
         if d <= 0 or r.random() < 0.25:
+            if r.random() < 0.04:
+                return ["ic", self.int_lit()]
             if r.random() < max(self.lit_rate, 0.3) or not self.ivars:
                 return ["il", self.int_lit()]
             return ["iv", r.choice(self.ivars)]
